@@ -157,23 +157,24 @@ PanelChecks(w, S, p, prop) ==
 ---------------------------------------------------------------------------
 (* Outcome *)
 
-OpProp(op) ==
-    CASE op \in {"NewEntity", "NewEntityWith", "BuilderNew", "NewBatch"} -> "C02"
-      [] op \in {"Exchange", "Assign", "Set", "Read"} -> "C01"
-      [] op \in {"SetRelation"} -> "C05"
-      [] op \in {"RemoveEntity", "BatchRemove"} -> "C06"
-      [] op \in {"BatchExchange", "BatchSetRelation"} -> "C08"
-      [] op \in {"Panel", "OpenQuery", "QNext", "QStep", "QClose", "QCount"} -> "C03"
-      [] op \in {"Register", "Unregister"} -> "C07"
-      [] op \in {"Reset"} -> "C15"
-      [] op \in {"ResAdd", "ResRemove"} -> "C20"
-      [] OTHER -> "C10"
+OpProps(op) ==
+    CASE op \in {"NewEntity", "NewEntityWith", "BuilderNew", "NewBatch"} -> <<"C02", "C01">>
+      [] op \in {"Exchange", "Assign", "Set", "Read"} -> <<"C01">>
+      [] op \in {"SetRelation"} -> <<"C05">>
+      [] op \in {"RemoveEntity"} -> <<"C06", "C02">>
+      [] op \in {"BatchRemove"} -> <<"C06", "C08">>
+      [] op \in {"BatchExchange", "BatchSetRelation"} -> <<"C08">>
+      [] op \in {"Panel", "OpenQuery", "QNext", "QStep", "QClose", "QCount"} -> <<"C03">>
+      [] op \in {"Register", "Unregister"} -> <<"C07">>
+      [] op \in {"Reset"} -> <<"C15">>
+      [] op \in {"ResAdd", "ResRemove"} -> <<"C20">>
+      [] OTHER -> <<"C10">>
 
 (* why: "" when legal; else "locked", "dead-target" or "args".             *)
 OutcomeChecks(ln, why) ==
     LET p == ln.res.panic IN
-    << Chk(OpProp(ln.op), "legal-operation-panicked", why # "" \/ ~p),
-       Chk("C10", "illegal-operation-accepted", why = "" \/ p),
+    ChkN(OpProps(ln.op), "legal-operation-panicked", why # "" \/ ~p) \o
+    << Chk("C10", "illegal-operation-accepted", why = "" \/ p),
        Chk("C09", "structural-change-accepted-while-locked", why # "locked" \/ p),
        Chk("C05", "dead-target-accepted", why # "dead-target" \/ p) >>
 
